@@ -850,7 +850,9 @@ export class RegexRuntype extends BaseRuntype {
 
   constructor(metadata: RuntypeMetadata | undefined, regex: RegExp, description: string) {
     super(metadata);
-    this.regex = regex;
+    // a template literal type describes the whole string (the emitted pattern is not anchored), and `${string}`
+    // also covers line terminators, which `.` only matches with the "s" flag
+    this.regex = new RegExp(`^(?:${regex.source})$`, regex.flags.includes("s") ? regex.flags : regex.flags + "s");
     this.description = description;
   }
 
